@@ -108,6 +108,8 @@ pub struct Found<C> {
     pub run_index: u64,
     pub case: C,
     pub decisions: Vec<u64>,
+    /// set when the run's process died and its decisions are unknown: replay draws them again
+    pub decision_seed: Option<u64>,
     pub violation: Violation,
 }
 
@@ -262,10 +264,12 @@ pub fn run_batch<S: Scenario>(s: &S, cfg: &BatchCfg) -> BatchOut {
                                 e.2 = i;
                             }
                         } else {
+                            let died = v.oracle == "no-crash";
                             g.found.push(Found {
                                 run_index: i,
                                 case,
                                 decisions: r.decisions,
+                                decision_seed: if died { Some(mix(run_seed, 0xdec1)) } else { None },
                                 violation: v,
                             });
                             stop.store(true, Ordering::Relaxed);
@@ -327,7 +331,11 @@ pub fn run_batch<S: Scenario>(s: &S, cfg: &BatchCfg) -> BatchOut {
             break;
         }
         violations += 1;
-        let (case, decisions, viol, shrink_info) = shrink_found(s, f);
+        let (case, decisions, viol, shrink_info) = if f.decision_seed.is_some() {
+            (f.case.clone(), Vec::new(), f.violation.clone(), json!({"note": "not shrunk: the run's process died"}))
+        } else {
+            shrink_found(s, f)
+        };
         let path = cfg.replay_dir.join(format!(
             "{}-{}-{}-{}.json",
             s.property(),
@@ -343,7 +351,7 @@ pub fn run_batch<S: Scenario>(s: &S, cfg: &BatchCfg) -> BatchOut {
             run_index: f.run_index,
             plan: serde_json::to_value(&case).unwrap(),
             decisions,
-            decision_seed: None,
+            decision_seed: f.decision_seed,
             violation: viol.clone(),
             shrink: shrink_info,
         };
